@@ -64,6 +64,7 @@ class H:
     controller = None
     on_launch = None     # optional callback(job, task)
     hook_answers = {}    # reference -> list of restart-hook answers
+    exit_files = None    # optional fn(job, launch index) -> {file name: content} written when the task succeeds
 
 
 def ev(kind, **kw):
@@ -179,6 +180,17 @@ def install():
             if self._outmode in ('launch+exit', 'exit') and self._reason == 'Success':
                 VFS.write(self.job.workingDirectory.directory)
                 ev('output', ref=self.job.reference)
+            if H.exit_files and self._reason == 'Success':
+                # real files a task leaves behind (e.g. the condition file of a DoWhile loop):
+                # {component name without the iteration prefix: {file name: [content of iteration 0, 1, ... (last repeats)]}}
+                cname = self.job.reference.split('.', 1)[1]
+                iteration = 0
+                if '#' in cname:
+                    iteration, cname = cname.split('#', 1)
+                    iteration = int(iteration)
+                for fname, contents in (H.exit_files.get(cname) or {}).items():
+                    with open(os.path.join(self.job.workingDirectory.directory, fname), 'w') as fh:
+                        fh.write(contents[min(iteration, len(contents) - 1)])
             self._done = True
             if self in H.live:
                 H.live.remove(self)
@@ -250,7 +262,8 @@ class FakeStatus:
 class Scenario:
     """A workflow + the environment script."""
 
-    def __init__(self, doc, script=None, outmode=None, stages=None, extra_files=None, name='', do_restart_sources=None):
+    def __init__(self, doc, script=None, outmode=None, stages=None, extra_files=None, name='', do_restart_sources=None,
+                 exit_files=None):
         self.doc = doc
         self.script = script or {}
         self.outmode = outmode or {}
@@ -258,14 +271,15 @@ class Scenario:
         self.extra_files = extra_files or {}
         self.name = name
         self.do_restart_sources = do_restart_sources
+        self.exit_files = exit_files or {}
 
     def to_json(self):
         return {'doc': self.doc, 'script': self.script, 'outmode': self.outmode, 'stages': self.stages,
-                'extra_files': self.extra_files, 'name': self.name}
+                'extra_files': self.extra_files, 'name': self.name, 'exit_files': self.exit_files}
 
     @classmethod
     def from_json(cls, j):
-        return cls(j['doc'], j.get('script'), j.get('outmode'), j.get('stages'), j.get('extra_files'), j.get('name', ''))
+        return cls(j['doc'], j.get('script'), j.get('outmode'), j.get('stages'), j.get('extra_files'), j.get('name', ''), exit_files=j.get('exit_files'))
 
 
 class Execution:
@@ -287,6 +301,7 @@ def reset_class_state():
     H.launches = collections.Counter()
     H.controller = None
     H.hook_answers = {}
+    H.exit_files = None
 
 
 def build_controller(scn, location):
@@ -360,6 +375,7 @@ def execute(scn, choices, horizon=900.0, step_cap=30000, want_fps=True, main=Non
     reset_class_state()
     H.script = {k: [list(x) for x in v] for k, v in scn.script.items()}
     H.outmode = dict(scn.outmode)
+    H.exit_files = dict(scn.exit_files)
     base = '/dev/shm' if os.access('/dev/shm', os.W_OK) else None
     location = tempfile.mkdtemp(prefix='e1-', dir=base)
     x = Execution()
